@@ -42,3 +42,8 @@ package parser
 //@   assigns nothing
 //@ func interface Node.String
 //@   assigns nothing
+
+// Position only refreshes the last-file cache of the set (binary search over the files: not verified here)
+//@ func (*SourceFileSet).Position
+//@   mode unverified sort.Search over the file table; only the frame is used
+//@   assigns s.LastFile
